@@ -167,6 +167,13 @@ def run(tier, replay=None):
                          "found": bool(d.get("fail"))})
             continue
         if d.get("fail"):
+            if cert:
+                # soundness of the certificates: a behaviour proved for all states must not have a failing sampled state
+                buckets["certified_with_failing_state"] += 1
+                viol.append({"what": f"{it['insn']} part {it['part']}: CERTIFIED (proved for all states) but a sampled state disagrees: {d['fail']} "
+                                     "(the carve-out / certificate or the execution model is wrong)",
+                             "instruction": it["insn"], "program": it["src0"], "ast": json.dumps(it["ast"]), "real_tree": d["real"][:2500]})
+                continue
             if it["features"] & semprops.NOT_JUDGED:
                 buckets["not_judged_unsequenced"] += 1
             elif it["features"] & known_feats:
